@@ -7,7 +7,7 @@
 
    Shape of a denotation: static (non-differentiable) parameters p  -- index maps, conditions, split tables --
    and a list of differentiable operands, each a flattened vector; the result is a list of vectors. *)
-From Coq Require Import ZArith String List Lia Bool.
+From Coq Require Import ZArith QArith String List Lia Bool.
 From J2O Require Import PyLib.
 From J2OGen Require Import GenAutodiff.
 Import ListNotations.
@@ -282,3 +282,112 @@ Proof. vm_compute. reflexivity. Qed.
    a tree whose helper is textually the historical one (or anything else) breaks this proof *)
 Theorem current_batch_helper_is_repaired : hsb_source_variant = "after_batch"%string /\ batcher_shape_checked = true.
 Proof. split; reflexivity. Qed.
+
+(* ================================================================== hand-written differentiation rules *)
+(* Rules DERIVED from the original implementation (register_jvp_via_jax_jvp: jax.jvp of the original; batch rules that jax.vmap
+   the original) are JAX's own transformation of the function the primitive stands for: whatever the transformation D is,
+   applying it to an implementation that IS the original gives D of the original. *)
+Lemma derived_rule_is_jax_rule {F R : Type} (D : F -> R) (impl orig : F) : impl = orig -> D impl = D orig.
+Proof. intros ->. reflexivity. Qed.
+
+(* HAND-WRITTEN JVP / transpose rules (inventory: gen/GenAutodiff.v) need their own test: each of these plugins has a boundary
+   program family in harness/c10.py (_rule_families); a new hand-written rule without one breaks this proof *)
+Open Scope string_scope.
+Definition boundary_tested_rules : list string :=
+  ["jax/nn/celu"; "jax/nn/elu"; "jax/nn/gelu"; "jax/nn/leaky_relu"; "jax/nn/mish"; "jax/nn/relu"; "jax/nn/selu"; "jax/nn/sigmoid";
+   "jax/nn/silu"; "jax/nn/softplus"; "jax/nn/softsign"; "jax/numpy/prod"; "jax/numpy/select"; "jax/numpy/stack"; "jax/numpy/sum";
+   "jax/numpy/take"; "jax/numpy/where"].
+Close Scope string_scope.
+Theorem handwritten_rules_have_boundary_tests :
+  forallb (fun m => str_in m boundary_tested_rules) (HANDWRITTEN_JVP_PLUGINS ++ HANDWRITTEN_TRANSPOSE_PLUGINS) = true.
+Proof. vm_compute. reflexivity. Qed.
+
+(* ---- jax2onnx/plugins/jax/numpy/prod.py : _prod_jvp_rule over the rationals (one reduced slice) *)
+Module ProdJvp.
+Local Open Scope Q_scope.
+
+Definition qz (x : Q) : bool := Qeq_bool x 0.
+Fixpoint qprod (l : list Q) : Q := match l with [] => 1 | x :: r => x * qprod r end.
+(* the derivative of the product in direction t: sum_i t_i * prod_{j<>i} x_j (product rule, no division) *)
+Fixpoint dprod (l t : list Q) : Q :=
+  match l, t with x :: r, u :: v => u * qprod r + x * dprod r v | _, _ => 0 end.
+Fixpoint zcount (l : list Q) : nat := match l with [] => 0%nat | x :: r => ((if qz x then 1 else 0) + zcount r)%nat end.
+Definition safe (x : Q) : Q := if qz x then 1 else x.
+Fixpoint ratio_sum (l t : list Q) : Q :=
+  match l, t with x :: r, u :: v => (if qz x then 0 else u / x) + ratio_sum r v | _, _ => 0 end.
+Fixpoint zero_terms (l t : list Q) : Q :=
+  match l, t with x :: r, u :: v => (if qz x then u else 0) + zero_terms r v | _, _ => 0 end.
+Definition tangent_no_zero l t := qprod l * ratio_sum l t.
+Definition tangent_one_zero l t := qprod (map safe l) * zero_terms l t.
+(* _prod_jvp_rule *)
+Definition prod_jvp_three l t : Q :=
+  match zcount l with 0%nat => tangent_no_zero l t | 1%nat => tangent_one_zero l t | _ => 0 end.
+(* the collapsed rule of the seeded regression *)
+Definition prod_jvp_collapsed l t : Q :=
+  match zcount l with 0%nat => tangent_no_zero l t | _ => tangent_one_zero l t end.
+
+Lemma qz_true x : qz x = true -> x == 0.
+Proof. unfold qz. apply Qeq_bool_eq. Qed.
+Lemma qz_false x : qz x = false -> ~ x == 0.
+Proof. unfold qz. intros H E. apply Qeq_bool_neq in H. contradiction. Qed.
+
+Ltac cz x H E := simpl in H; revert H; destruct (qz x) eqn:E; intro H; simpl in H.
+
+Lemma qprod_zero l : (1 <= zcount l)%nat -> qprod l == 0.
+Proof.
+  induction l as [|x r IH]; simpl; intro H; [exfalso; lia|].
+  cz x H E.
+  - apply qz_true in E. rewrite E. ring.
+  - rewrite IH by lia. ring.
+Qed.
+Lemma nozero_safe l : zcount l = 0%nat -> qprod (map safe l) == qprod l.
+Proof.
+  induction l as [|x r IH]; simpl; intro H; [reflexivity|].
+  unfold safe at 1. cz x H E; [exfalso; lia|]. rewrite IH by lia. reflexivity.
+Qed.
+Lemma nozero_terms l : forall t, zcount l = 0%nat -> zero_terms l t == 0.
+Proof.
+  induction l as [|x r IH]; intros [|u v] H; simpl; try reflexivity.
+  cz x H E; [exfalso; lia|]. rewrite IH by lia. ring.
+Qed.
+
+Lemma case0 l : forall t, zcount l = 0%nat -> dprod l t == tangent_no_zero l t.
+Proof.
+  unfold tangent_no_zero. induction l as [|x r IH]; intros [|u v] H; simpl; try ring.
+  cz x H E; [exfalso; lia|]. apply qz_false in E.
+  rewrite IH by lia. field. exact E.
+Qed.
+Lemma case1 l : forall t, zcount l = 1%nat -> dprod l t == tangent_one_zero l t.
+Proof.
+  unfold tangent_one_zero. induction l as [|x r IH]; intros [|u v] H; simpl; try ring.
+  unfold safe at 1. cz x H E.
+  - assert (Hz : zcount r = 0%nat) by lia. apply qz_true in E.
+    rewrite (nozero_safe r Hz), (nozero_terms r v Hz), E. ring.
+  - assert (Hz : zcount r = 1%nat) by lia.
+    rewrite (IH v Hz), (qprod_zero r) by lia. ring.
+Qed.
+Lemma case2 l : forall t, (2 <= zcount l)%nat -> dprod l t == 0.
+Proof.
+  induction l as [|x r IH]; intros [|u v] H; simpl; try reflexivity.
+  cz x H E.
+  - apply qz_true in E. rewrite (qprod_zero r) by lia. rewrite E. ring.
+  - rewrite (IH v) by lia. rewrite (qprod_zero r) by lia. ring.
+Qed.
+
+(* the three-case rule IS the product rule, for every list and every tangent *)
+Theorem prod_jvp_three_correct l t : prod_jvp_three l t == dprod l t.
+Proof.
+  unfold prod_jvp_three. destruct (zcount l) as [|[|n]] eqn:E; symmetry.
+  - now apply case0. - now apply case1. - apply case2. lia.
+Qed.
+
+(* the collapsed rule is not: x = [0;5;0], t = [1;0;0] gives 5 instead of 0 *)
+Theorem prod_jvp_collapsed_refuted : exists l t, ~ prod_jvp_collapsed l t == dprod l t.
+Proof. exists [0; 5; 0], [1; 0; 0]. vm_compute. discriminate. Qed.
+(* and it is right exactly when a slice has at most one zero *)
+Theorem prod_jvp_collapsed_partial l t : (zcount l <= 1)%nat -> prod_jvp_collapsed l t == dprod l t.
+Proof.
+  intro H. rewrite <- prod_jvp_three_correct. unfold prod_jvp_collapsed, prod_jvp_three.
+  destruct (zcount l) as [|[|n]]; try reflexivity. lia.
+Qed.
+End ProdJvp.
